@@ -212,3 +212,4 @@ def run(rep, programs):
     from props import c15
     c15.r_reserve_before_lower(rep, prog)    # a targeted request hands its frame to Lower::get and charges that frame's tree
     c01.r_huge_coord(rep, prog)       # counter and bits that are changed together belong to the same huge frame
+    c01.r_units(rep, prog)            # no tree / huge / row number is used where a frame number is meant (and vice versa)
